@@ -54,10 +54,10 @@ def weave_raw_leaves(u):
         ensures=[
             ('C02:valid-on-every-exit', 'final(w).inv()'),
             ('C06 C20:one-filesystem-call', 'final(w).steps <= old(w).steps + 2 * (1) && final(w).opens == old(w).opens'),
-            ('C18 C05:removal-succeeds-or-reports-a-real-fault',
+            ('C18 C05 C06:removal-succeeds-or-reports-a-real-fault',
              'old(w).solo ==> (r.is_ok() ==> final(w).files == old(w).files.remove(pv(path)) && final(w).dirs == old(w).dirs '
              '&& final(w).inodes == old(w).inodes && final(w).hard_faults == old(w).hard_faults)'),
-            ('C05 C18:error-means-hard-fault', 'old(w).solo ==> (r.is_err() ==> final(w).hard_faults > old(w).hard_faults && final(w).same_fs(*old(w)))'),
+            ('C05 C18 C06:error-means-hard-fault', 'old(w).solo ==> (r.is_err() ==> final(w).hard_faults > old(w).hard_faults && final(w).same_fs(*old(w)))'),
             ('', 'final(w).kept(*old(w)) && final(w).now == old(w).now && final(w).published == old(w).published && final(w).listed == old(w).listed'),
         ])
 
@@ -137,7 +137,7 @@ pub proof fn lemma_stamped_unread(ino: Inode, t: int, gran: int)
             ('C09 C07:stamp-is-now-and-clears-read-mark',
              'old(w).solo ==> (r.is_ok() ==> old(w).files.contains_key(pv(path)) && final(w).hard_faults == old(w).hard_faults '
              '&& final(w).only_inode_changed(*old(w), old(w).files[pv(path)], stamped(old(w).inode_at(pv(path)), final(w).now, old(w).gran)))'),
-            ('C18 C05:error-leaves-filesystem-unchanged',
+            ('C18 C05 C06:error-leaves-filesystem-unchanged',
              'old(w).solo ==> (r.is_err() ==> final(w).same_fs(*old(w)) && (absent_err(err_of(r)) ==> !old(w).files.contains_key(pv(path))) '
              '&& final(w).hard_faults == old(w).hard_faults + if absent_err(err_of(r)) { 0nat } else { 1nat })'),
         ])
@@ -160,12 +160,12 @@ pub proof fn lemma_stamped_unread(ino: Inode, t: int, gran: int)
             ('C03 C19 C02 C01:file-made-read-only',
              'old(w).solo ==> (r.is_ok() ==> old(w).files.contains_key(pv(path)) && final(w).hard_faults == old(w).hard_faults '
              '&& final(w).only_inode_changed(*old(w), old(w).files[pv(path)], Inode { writable: false, ..old(w).inode_at(pv(path)) }))'),
-            ('C18 C05:error-leaves-filesystem-unchanged',
+            ('C18 C05 C06:error-leaves-filesystem-unchanged',
              'old(w).solo ==> (r.is_err() ==> final(w).same_fs(*old(w)) && (absent_err(err_of(r)) ==> !old(w).files.contains_key(pv(path))) '
              '&& final(w).hard_faults == old(w).hard_faults + if absent_err(err_of(r)) { 0nat } else { 1nat })'),
         ])
 
-    ERR_UNCHANGED = ('C18 C05:error-leaves-filesystem-unchanged-and-is-a-real-fault',
+    ERR_UNCHANGED = ('C18 C05 C06:error-leaves-filesystem-unchanged-and-is-a-real-fault',
                      'old(w).solo ==> (r.is_err() ==> final(w).same_fs(*old(w)) && final(w).hard_faults > old(w).hard_faults)')
 
     # ---- touch::run ------------------------------------------------------------------------
@@ -233,7 +233,7 @@ pub proof fn lemma_stamped_unread(ino: Inode, t: int, gran: int)
              '&& final(w).files =~= old(w).files.remove(pv(from)).insert(pv(to), old(w).files[pv(from)]) && final(w).dirs == old(w).dirs '
              '&& final(w).inodes =~= old(w).inodes.insert(old(w).files[pv(from)], published_inode(old(w).inode_at(pv(from)), final(w).now, old(w).gran)) '
              '&& final(w).hard_faults == old(w).hard_faults && final(w).published == old(w).published + 1)'),
-            ('C18 C05:error-is-explained',
+            ('C18 C05 C06:error-is-explained',
              'old(w).solo ==> (r.is_err() ==> final(w).dirs == old(w).dirs && (final(w).hard_faults > old(w).hard_faults || !old(w).files.contains_key(pv(from)) '
              '|| !old(w).dirs.contains(parent(pv(to)))))'),
             ('C01 C03 C19:publishing-never-changes-the-bytes-of-any-file', 'bytes_kept(*old(w), *final(w))'),
@@ -242,7 +242,7 @@ pub proof fn lemma_stamped_unread(ino: Inode, t: int, gran: int)
              'r.is_err() ==> attempt_effect(*old(w), *final(w), pv(from), pv(to))'),
             ('C18 C02:failed-publication-leaves-entries-alone',
              'r.is_err() && final(w).published == old(w).published ==> final(w).files == old(w).files'),
-            ('C18 C05:without-a-real-fault-a-failed-attempt-published-nothing',
+            ('C18 C05 C06:without-a-real-fault-a-failed-attempt-published-nothing',
              'r.is_err() && final(w).hard_faults == old(w).hard_faults ==> final(w).published == old(w).published && final(w).files == old(w).files '
              '&& forall|i: InodeId| old(w).inodes.contains_key(i) && !(old(w).files.contains_key(pv(from)) && i == old(w).files[pv(from)]) ==> #[trigger] final(w).inodes[i] == old(w).inodes[i]'),
         ])
@@ -277,7 +277,7 @@ pub proof fn lemma_stamped_unread(ino: Inode, t: int, gran: int)
              'source_unaliased(*old(w), pv(from)) ==> (r.is_ok() && old(w).files.contains_key(pv(to)) ==> '
              'final(w).inode_at(pv(to)) == (Inode { atime: final(w).inode_at(pv(to)).atime, ..old(w).inode_at(pv(to)) }) && final(w).accessed(pv(to)) '
              '&& forall|i: InodeId| i != old(w).files[pv(from)] && i != old(w).files[pv(to)] && old(w).inodes.contains_key(i) ==> #[trigger] final(w).inodes[i] == old(w).inodes[i])'),
-            ('C18 C05:error-is-explained',
+            ('C18 C05 C06:error-is-explained',
              'old(w).solo ==> (r.is_err() ==> final(w).dirs == old(w).dirs && (final(w).hard_faults > old(w).hard_faults || !old(w).files.contains_key(pv(from)) '
              '|| !old(w).dirs.contains(parent(pv(to)))))'),
             ('C01 C03 C19:publishing-never-changes-the-bytes-of-any-file', 'bytes_kept(*old(w), *final(w))'),
@@ -286,7 +286,7 @@ pub proof fn lemma_stamped_unread(ino: Inode, t: int, gran: int)
              'r.is_err() ==> attempt_effect(*old(w), *final(w), pv(from), pv(to))'),
             ('C18 C02:failed-publication-leaves-entries-alone',
              'r.is_err() && final(w).published == old(w).published ==> final(w).files == old(w).files'),
-            ('C18 C05:without-a-real-fault-a-failed-attempt-published-nothing',
+            ('C18 C05 C06:without-a-real-fault-a-failed-attempt-published-nothing',
              'r.is_err() && final(w).hard_faults == old(w).hard_faults ==> final(w).published == old(w).published && final(w).files == old(w).files '
              '&& forall|i: InodeId| old(w).inodes.contains_key(i) && !(old(w).files.contains_key(pv(from)) && i == old(w).files[pv(from)]) ==> #[trigger] final(w).inodes[i] == old(w).inodes[i]'),
         ])
@@ -363,6 +363,7 @@ pub proof fn lemma_skip_item(cache: Seq<CachedFile>, l0: Seq<Option<Seq<u8>>>, k
     }
 }
 
+#[verifier::rlimit(120)]
 pub proof fn lemma_push_record(c0: Seq<CachedFile>, c: CachedFile, l0: Seq<Option<Seq<u8>>>, k: int, w: World, dir: PathV, complete: bool)
     requires
         0 < k <= l0.len(),
@@ -464,8 +465,9 @@ pub open spec fn records_ok(cache: Seq<CachedFile>, w: World, dir: PathV) -> boo
     ], invariant_except_break=[('C06:two-calls-per-directory-item', 'w.steps <= old(w).steps + 2 * (1 + 2 * k)')],
         ensures=[('', 'kw_it.rem().len() == 0')], decreases='kw_it.rem().len()')
     # proof steps at the four ways an item is disposed of
-    cf.insert_before('continue', '{ proof { lemma_skip_item(cache@, l0, k, *old(w), dir, w.hard_faults == old(w).hard_faults); } ', nth=0)
-    cf.insert_after('continue', ' }', nth=0)
+    if cf._find('continue', count=True):   # the arm that skips an entry which vanished between readdir and stat
+        cf.insert_before('continue', '{ proof { lemma_skip_item(cache@, l0, k, *old(w), dir, w.hard_faults == old(w).hard_faults); } ', nth=0)
+        cf.insert_after('continue', ' }', nth=0)
     cf.insert_after('count -= 1 ;', '\n                proof { lemma_skip_item(cache@, l0, k, *old(w), dir, w.hard_faults == old(w).hard_faults); }')
     cf.insert_before('cache . push', 'let ghost c0 = cache@;\n                ')
     cf.insert_after('if let Ok ( entry ) = maybe_entry {', '\n            proof { assert(entry.name() == l0[k - 1].unwrap() && entry.dir() == dir); }')
@@ -484,7 +486,7 @@ pub open spec fn records_ok(cache: Seq<CachedFile>, w: World, dir: PathV) -> boo
              'r.is_ok() ==> records_ok(r.unwrap().0@, *old(w), pv(cache_dir)) && r.unwrap().1 >= r.unwrap().0@.len()'),
             ('C07:listing-is-complete-when-nothing-failed',
              'r.is_ok() && final(w).hard_faults == old(w).hard_faults ==> all_files_recorded(r.unwrap().0@, *old(w), pv(cache_dir))'),
-            ('C05 C18:error-is-a-missing-directory-or-a-real-fault',
+            ('C05 C18 C06:error-is-a-missing-directory-or-a-real-fault',
              'r.is_err() ==> final(w).hard_faults > old(w).hard_faults || (absent_err(err_of(r)) && !old(w).dirs.contains(pv(cache_dir)))'),
         ])
 
@@ -671,7 +673,7 @@ pub proof fn lemma_restamped_prefix(old: World, a: World, b: World, mb: Seq<Cach
             ('C07 C17 C02 C16:maintenance-frame-on-every-exit', 'maint_frame(*old(w), *final(w), update.to_evict@, update.to_move_back@)'),
             ('C07:plan-fully-applied', 'r.is_ok() && final(w).hard_faults == old(w).hard_faults ==> maint_done(*old(w), *final(w), update.to_evict@, update.to_move_back@)'),
             ('C06:linear-number-of-filesystem-calls', 'final(w).steps <= old(w).steps + 2 * (update.to_evict@.len() + update.to_move_back@.len()) && final(w).opens == old(w).opens && final(w).published == old(w).published && final(w).listed == old(w).listed'),
-            ('C05 C18:error-is-a-real-fault', 'r.is_err() ==> final(w).hard_faults > old(w).hard_faults'),
+            ('C05 C18 C06:error-is-a-real-fault', 'r.is_err() ==> final(w).hard_faults > old(w).hard_faults'),
         ])
     au.body_start('broadcast use group_asref;\n    let ghost dir = pbv(parent);\n    let ghost ev = update.to_evict@;\n    let ghost mb = update.to_move_back@;')
     # T3 (Rust Reference definition of `for`): both loops are desugared so that a `continue` inside them stays
@@ -867,7 +869,7 @@ pub open spec fn prune_exact(old: World, fin: World, dir: PathV, cap: nat, recs:
             ('C11 C07:nothing-disappears-without-a-directory-scan', 'final(w).listed == old(w).listed ==> forall|p: PathV| #[trigger] old(w).files.contains_key(p) ==> final(w).files.contains_key(p)'),
             ('C06:linear-in-the-number-of-directory-entries',
              'final(w).steps <= old(w).steps + 2 * (2 + 3 * (final(w).listed - old(w).listed)) && final(w).opens == old(w).opens + 1 && final(w).published == old(w).published'),
-            ('C05 C18:error-is-a-missing-directory-or-a-real-fault',
+            ('C05 C18 C06:error-is-a-missing-directory-or-a-real-fault',
              'r.is_err() ==> final(w).hard_faults > old(w).hard_faults || (absent_err(err_of(r)) && !old(w).dirs.contains(pbv(cache_dir)) && final(w).same_fs(*old(w)))'),
         ])
     pr.insert_before('let update =', 'let ghost recs = cached_files@;\n    let ghost w1 = *w;\n    let ghost dir = pbv(cache_dir);\n    ')
@@ -1253,7 +1255,7 @@ pub open spec fn write_frame(old: World, fin: World, base: PathV, name: Seq<u8>,
              'r.is_ok() && final(w).hard_faults == old(w).hard_faults && old(w).dirs.contains(cowv(temp_dir)) && final(w).now >= temp_age_ns() ==> no_stale_temp(*final(w), cowv(temp_dir), final(w).now)'),
             ('C11 C07:nothing-disappears-without-a-directory-scan', 'final(w).listed == old(w).listed ==> forall|p: PathV| #[trigger] old(w).files.contains_key(p) ==> final(w).files.contains_key(p)'),
             ('C06:three-calls-per-directory-item', 'final(w).steps <= old(w).steps + 2 * (2 + 3 * (final(w).listed - old(w).listed)) && final(w).opens <= old(w).opens + 1 && final(w).published == old(w).published'),
-            ('C05 C18:error-is-a-real-fault', 'r.is_err() ==> final(w).hard_faults > old(w).hard_faults'),
+            ('C05 C18 C06:error-is-a-real-fault', 'r.is_err() ==> final(w).hard_faults > old(w).hard_faults'),
         ])
     u.dropped.append('cache_dir.rs: #[cfg(not(test))] on MAX_TEMP_FILE_AGE (the #[cfg(test)] alternative is not compiled into the library)')
 
@@ -1304,7 +1306,7 @@ pub open spec fn write_frame(old: World, fin: World, base: PathV, name: Seq<u8>,
              'r.is_ok() && r.unwrap().is_none() ==> !old(w).files.contains_key(%s) && final(w).same_fs(*old(w))' % TARGET),
             ('C04 C11 C18:present-entry-is-found',
              'r.is_ok() && old(w).files.contains_key(%s) ==> r.unwrap().is_some()' % TARGET),
-            ('C18 C05:error-is-an-invalid-name-or-a-real-fault',
+            ('C18 C05 C06:error-is-an-invalid-name-or-a-real-fault',
              'r.is_err() ==> err_kind(err_of(r)) == ErrorKind::InvalidInput || final(w).hard_faults > old(w).hard_faults'),
         ])
     g.body_start('broadcast use group_asref;\n        proof { if valid_key(str_bytes(name)) && old(w).configured_dir(self.spec_base()) && old(w).files.contains_key(%s) { lemma_entry_supplied(*old(w), self.spec_base(), str_bytes(name)); } }' % TARGET)
@@ -1331,7 +1333,7 @@ pub open spec fn write_frame(old: World, fin: World, base: PathV, name: Seq<u8>,
             ('C15 C09:touch-changes-nothing-but-the-access-time-of-the-entry-found',
              'final(w).atime_only(*old(w)) && forall|i: InodeId| #[trigger] old(w).inodes.contains_key(i) ==> '
              '(final(w).inodes[i].atime != old(w).inodes[i].atime ==> old(w).files.contains_key(%s) && i == old(w).files[%s])' % (TARGET, TARGET)),
-            ('C18 C05:error-is-an-invalid-name-or-a-real-fault',
+            ('C18 C05 C06:error-is-an-invalid-name-or-a-real-fault',
              'r.is_err() ==> final(w).same_fs(*old(w)) && (err_kind(err_of(r)) == ErrorKind::InvalidInput || final(w).hard_faults > old(w).hard_faults)'),
         ])
     th.body_start('broadcast use group_asref;')
@@ -1367,7 +1369,7 @@ pub open spec fn write_frame(old: World, fin: World, base: PathV, name: Seq<u8>,
                   'r.is_ok() && final(w).hard_faults == old(w).hard_faults && old(w).dirs.contains(self.spec_temp()) && final(w).now >= temp_age_ns() ==> no_stale_temp(*final(w), self.spec_temp(), final(w).now)'),
                  ('C11 C07:nothing-disappears-without-a-directory-scan', 'final(w).listed == old(w).listed ==> forall|p: PathV| #[trigger] old(w).files.contains_key(p) ==> final(w).files.contains_key(p)'),
                  ('C06:three-calls-per-directory-item', 'final(w).steps <= old(w).steps + 2 * (2 + 3 * (final(w).listed - old(w).listed)) && final(w).opens <= old(w).opens + 1 && final(w).published == old(w).published'),
-                 ('C05 C18:error-is-a-real-fault', 'r.is_err() ==> final(w).hard_faults > old(w).hard_faults')])
+                 ('C05 C18 C06:error-is-a-real-fault', 'r.is_err() ==> final(w).hard_faults > old(w).hard_faults')])
     ct.body_start('proof { lemma_child(self.spec_base(), temp_name()); }')
 
     dc = u.under_contract(t.sub(['fn definitely_cleanup']), ['C02', 'C07', 'C17', 'C05', 'C18', 'C06', 'C10', 'C11'])
@@ -1390,7 +1392,7 @@ pub open spec fn write_frame(old: World, fin: World, base: PathV, name: Seq<u8>,
                   '&& temp_frame(m, *final(w), self.spec_temp(), final(w).now)'),
                  ('C11 C07:nothing-disappears-without-a-directory-scan', 'final(w).listed == old(w).listed ==> forall|p: PathV| #[trigger] old(w).files.contains_key(p) ==> final(w).files.contains_key(p)'),
                  ('C06:linear-in-the-number-of-directory-entries', 'final(w).steps <= old(w).steps + 2 * (4 + 3 * (final(w).listed - old(w).listed)) && final(w).opens <= old(w).opens + 2'),
-                 ('C05 C18:error-is-a-real-fault', 'r.is_err() ==> final(w).hard_faults > old(w).hard_faults')])
+                 ('C05 C18 C06:error-is-a-real-fault', 'r.is_err() ==> final(w).hard_faults > old(w).hard_faults')])
     dc.insert_before('self . cleanup_temp_directory ( ) ? ;',
                      'let ghost wm = *w;\n        proof {\n'
                      '            assert forall|fin: World| #[trigger] temp_frame(wm, fin, self.spec_temp(), fin.now) && fin.kept(wm) && fin.published == wm.published implies cleanup_frame(*old(w), fin, self.spec_base()) by {\n'
@@ -1413,7 +1415,7 @@ pub open spec fn write_frame(old: World, fin: World, base: PathV, name: Seq<u8>,
                  ('C17 C07 C02 C16:maintenance-deletes-only-evictable-entries-and-stale-temporary-files', 'cleanup_frame(*old(w), *final(w), self.spec_base())'),
                  ('C11 C07:nothing-disappears-without-a-directory-scan', 'final(w).listed == old(w).listed ==> forall|p: PathV| #[trigger] old(w).files.contains_key(p) ==> final(w).files.contains_key(p)'),
                  ('C06:linear-in-the-number-of-directory-entries', 'final(w).steps <= old(w).steps + 2 * (4 + 3 * (final(w).listed - old(w).listed)) && final(w).opens <= old(w).opens + 2'),
-                 ('C05 C18:error-is-a-real-fault', 'r.is_err() ==> final(w).hard_faults > old(w).hard_faults')])
+                 ('C05 C18 C06:error-is-a-real-fault', 'r.is_err() ==> final(w).hard_faults > old(w).hard_faults')])
     mc.body_start('proof { lemma_cleanup_frame_same(*old(w), self.spec_base()); }')
 
     mt = u.under_contract(t.sub(['fn maintain']), ['C07', 'C17', 'C02', 'C05', 'C18', 'C06'])
@@ -1435,7 +1437,7 @@ pub open spec fn write_frame(old: World, fin: World, base: PathV, name: Seq<u8>,
                   '&& temp_frame(m, *final(w), self.spec_temp(), final(w).now)'),
                  ('C11 C07:nothing-disappears-without-a-directory-scan', 'final(w).listed == old(w).listed ==> forall|p: PathV| #[trigger] old(w).files.contains_key(p) ==> final(w).files.contains_key(p)'),
                  ('C06:linear-in-the-number-of-directory-entries', 'final(w).steps <= old(w).steps + 2 * (4 + 3 * (final(w).listed - old(w).listed)) && final(w).opens <= old(w).opens + 2'),
-                 ('C05 C18:error-is-a-real-fault', 'r.is_err() ==> final(w).hard_faults > old(w).hard_faults')])
+                 ('C05 C18 C06:error-is-a-real-fault', 'r.is_err() ==> final(w).hard_faults > old(w).hard_faults')])
 
     for opname, inner, nsteps in (('set', 'insert_or_update', 11), ('put', 'insert_or_touch', 13)):
         f = u.under_contract(t.sub(['fn ' + opname]), ['C01', 'C02', 'C03', 'C04', 'C05', 'C06', 'C09', 'C10', 'C11', 'C15', 'C16', 'C17', 'C18', 'C19', 'C20'])
@@ -1470,7 +1472,7 @@ pub open spec fn write_frame(old: World, fin: World, base: PathV, name: Seq<u8>,
                  + (' && final(w).files[%s] == old(w).files[pv(value)]' % DST if opname == 'set' else '')),
                 ('C13 C11 C18:success-means-a-publication-happened' + ('' if opname == 'set' else '-unless-the-key-was-already-bound'),
                  'r.is_ok() ==> final(w).published > old(w).published' + ('' if opname == 'set' else ' || old(w).files.contains_key(%s)' % DST)),
-                ('C18 C05:without-a-real-fault-a-failed-write-published-nothing', 'r.is_err() && final(w).hard_faults == old(w).hard_faults ==> final(w).published == old(w).published'),
+                ('C18 C05 C06:without-a-real-fault-a-failed-write-published-nothing', 'r.is_err() && final(w).hard_faults == old(w).hard_faults ==> final(w).published == old(w).published'),
                 ] + ([] if opname == 'set' else [('C11 C04:put-never-overwrites-an-existing-entry',
                                                  'r.is_ok() && final(w).hard_faults == old(w).hard_faults && final(w).listed == old(w).listed && old(w).files.contains_key(%s) ==> final(w).published == old(w).published' % DST)]) + [
                 ('C01 C03 C19:a-write-never-changes-the-bytes-of-any-file',
@@ -1479,7 +1481,7 @@ pub open spec fn write_frame(old: World, fin: World, base: PathV, name: Seq<u8>,
                  'r.is_ok() && final(w).hard_faults == old(w).hard_faults && old(w).dirs.contains(self.spec_base()) ==> exists|m: World| #[trigger] %s(*old(w), m, *final(w), self.spec_base(), str_bytes(name), pv(value), r.unwrap().is_some())' % exact),
                 ('C15 C16 C17:nothing-outside-this-cache-directory-changes',
                  'write_frame(*old(w), *final(w), self.spec_base(), str_bytes(name), pv(value))'),
-                ('C18 C05:error-is-explained',
+                ('C18 C05 C06:error-is-explained',
                  'r.is_err() ==> err_kind(err_of(r)) == ErrorKind::InvalidInput || final(w).hard_faults > old(w).hard_faults '
                  '|| !final(w).files.contains_key(pv(value))'),
             ])
